@@ -1115,10 +1115,14 @@ func (g *wgen) deviateP(c, foreign *chain, notShipped map[string]bool) {
 	case 12:
 		// the audience is a look-alike of the principal it should be (another key whose
 		// did:key string differs only in the case of one letter)
-		c.dlgs[k].Aud += lookAlike
+		if c.dlgs[k].Aud >= 0 && c.dlgs[k].Aud < lookAlike {
+			c.dlgs[k].Aud += lookAlike
+		}
 		g.note("P:lookalike-aud@" + pos)
 	default:
-		c.dlgs[k].Sub += lookAlike
+		if c.dlgs[k].Sub >= 0 && c.dlgs[k].Sub < lookAlike {
+			c.dlgs[k].Sub += lookAlike
+		}
 		c.dlgs[k].UseRoot = false
 		g.note("P:lookalike-sub@" + pos)
 	}
